@@ -381,3 +381,59 @@ Proof.
   rewrite T2. unfold body. rewrite split_rendered; [|destruct Ht as [H _]; destruct xs; [contradiction|discriminate]|exact Hok].
   apply parse_pieces. exact Hok.
 Qed.
+
+(* ---------- the order of the parameters does not matter ---------- *)
+
+From Coq Require Import Permutation.
+
+Lemma set_value_comm c k1 v1 k2 v2 c' : k1 <> k2 ->
+  match set_value c k1 v1 with inl c1 => set_value c1 k2 v2 | inr e => inr e end = inl c' ->
+  match set_value c k2 v2 with inl c2 => set_value c2 k1 v1 | inr e => inr e end = inl c'.
+Proof.
+  intros Hne. destruct c. unfold set_value, set_param_with. cbv zeta.
+  repeat match goal with
+  | |- context [bytes_eqb k1 ?K] =>
+      let E := fresh "E" in destruct (bytes_eqb k1 K) eqn:E; [apply bytes_eqb_eq in E|]
+  end;
+  repeat match goal with
+  | |- context [bytes_eqb k2 ?K] =>
+      let E := fresh "E" in destruct (bytes_eqb k2 K) eqn:E; [apply bytes_eqb_eq in E|]
+  end;
+  try (exfalso; apply Hne; congruence);
+  repeat match goal with
+  | |- context [if bytes_eqb (to_upper ?V) ?K then _ else _] => destruct (bytes_eqb (to_upper V) K)
+  end; intros X; try discriminate X; try exact X.
+Qed.
+
+Theorem apply_fields_perm fs fs' : Permutation fs fs' -> NoDup (map fst fs) ->
+  forall c c', apply_fields c fs = inl c' -> apply_fields c fs' = inl c'.
+Proof.
+  induction 1 as [|[k v] l l' HP IH|[k1 v1] [k2 v2] l|l l' l'' HP1 IH1 HP2 IH2]; intros ND c c' Hc.
+  - exact Hc.
+  - cbn [apply_fields] in *. destruct (set_value c k v) as [c1|e]; [|discriminate].
+    cbn [map] in ND. inversion ND; subst. now apply IH.
+  - cbn [map fst] in ND. inversion ND as [|? ? Hn ND']; subst.
+    assert (Hne : k2 <> k1) by (intros ->; apply Hn; left; reflexivity).
+    cbn [apply_fields] in *.
+    destruct (set_value c k2 v2) as [c2|e] eqn:E2; [|discriminate].
+    destruct (set_value c2 k1 v1) as [c21|e] eqn:E21; [|discriminate].
+    pose proof (set_value_comm c k2 v2 k1 v1 c21 Hne) as X. rewrite E2 in X. specialize (X E21).
+    destruct (set_value c k1 v1) as [c1|e]; [|discriminate]. rewrite X. exact Hc.
+  - apply IH2; [|apply IH1; assumption].
+    apply (Permutation_NoDup (Permutation_map fst HP1) ND).
+Qed.
+
+(* two renderings of the same parameters - other order, other white space, token or quoted form -
+   are the same challenge *)
+Theorem renderings_agree pre mid post xs pre' mid' post' ys c :
+  forallb is_chal_ws pre = true -> forallb is_chal_ws mid = true -> forallb is_chal_ws post = true ->
+  forallb piece_ok xs = true -> ends_tight xs ->
+  forallb is_chal_ws pre' = true -> forallb is_chal_ws mid' = true -> forallb is_chal_ws post' = true ->
+  forallb piece_ok ys = true -> ends_tight ys ->
+  Permutation (map padded_sem xs) (map padded_sem ys) -> NoDup (map fst (map padded_sem xs)) ->
+  parse_challenge (render_challenge pre mid post xs) = inl c ->
+  parse_challenge (render_challenge pre' mid' post' ys) = inl c.
+Proof.
+  intros. rewrite parse_challenge_rendered in * by assumption.
+  eapply apply_fields_perm; eassumption.
+Qed.
